@@ -25,6 +25,9 @@ Import ListNotations.
 Definition fval_id (k : nat) : option nat := Some k.
 (* f never calls Do itself: archiveCache's f reads files, zipCache's f zips an archive it was given *)
 Definition deps0 (k : nat) : list nat := [].
+(* and f returns: loading an archive or building a zip reports failure through its value (nil
+   archive, cached{nil, err}); neither function panics or calls runtime.Goexit *)
+Definition crash0 (k : nat) : bool := false.
 
 Section Refine.
 Variable A : Type.
@@ -35,7 +38,7 @@ Hypothesis name_ka : forall n, name_of (ka n) = n.
 Hypothesis name_kz : forall n, name_of (kz n) = n.
 Variable Zf : bytes -> zipres.           (* the zip every request computes for an archive name *)
 
-Notation cstepF := (cstep fval_id deps0).
+Notation cstepF := (cstep fval_id deps0 crash0).
 
 (* the calls a handler makes when every Do returns what its own f computes *)
 Fixpoint calls (p : prog A) : list call :=
@@ -154,7 +157,7 @@ Definition Zl : list (bytes * zipres) := flat_map (zip_ops d) ps.
 Hypothesis Zl_functional : functional Zl.
 Hypothesis Zf_agrees : forall n v, In (n, v) Zl -> Zf n = v.
 
-Notation creach := (creachable fval_id deps0 (map calls ps)).
+Notation creach := (creachable fval_id deps0 crash0 (map calls ps)).
 
 Definition thr_rel (p : prog A) (tha thc : thr) (ho : option (prog A)) : Prop :=
   rest tha = [] /\ rets tha = rets thc /\ stack tha = [] /\ stack thc = [] /\
@@ -294,7 +297,7 @@ Proof.
       inversion Hs; subst st'. clear Hs.
       (* C10: the returned value is the value of the one call of f for this key *)
       assert (v = Some key) as Hv.
-      { destruct (do_returns_f_value fval_id deps0 (map calls ps) sc' t (apply_upd thc (TRet (CDo key) v)) key v Hreach' Ec')
+      { destruct (do_returns_f_value fval_id deps0 crash0 (map calls ps) sc' t (apply_upd thc (TRet (CDo key) v)) key v Hreach' Ec')
           as [Hv _]; [cbn [apply_upd ret rets]; left; reflexivity|exact Hv]. }
       subst v. rewrite (resume_canon h key Hnk Hincl), Hcn.
       destruct (next_canon h key Hnk) as (h2 & Hcn2 & Hcalls & Hrun' & Hinc').
@@ -376,7 +379,7 @@ Proof.
   destruct (arun_Inv sch (ainit ps) _ st init_Inv Hrun) as (sc & HI).
   assert (forall k dd : nat, In dd (deps0 k) -> (fun _ : nat => 0) dd < (fun _ : nat => 0) k) as Hacyc
     by (intros k dd []).
-  destruct (cache_no_deadlock fval_id deps0 (map calls ps) (fun _ => 0) Hacyc sc (i_reach _ _ HI)) as [Hidle|(t & sc' & Hstep)].
+  destruct (cache_no_deadlock fval_id deps0 crash0 (map calls ps) (fun _ => 0) Hacyc (fun _ => eq_refl) sc (i_reach _ _ HI)) as [Hidle|(t & sc' & Hstep)].
   - left. apply Forall_forall. intros ho Hin.
     apply In_nth_error in Hin. destruct Hin as [i Hi].
     assert (i < length ps) as Hlt by (rewrite <- (i_len3 _ _ HI); eapply nth_error_lt; exact Hi).
